@@ -57,6 +57,8 @@ def run(ctx):
         "stix2.registration::_validate_props", "stix2.properties::_validate_type"})
     from .hidden_state import rule_no_hidden_state
     ctx.do(rule_no_hidden_state, "C19.history-independence")
+    from .pitfalls import rule_loops_not_cut_short
+    ctx.do(rule_loops_not_cut_short, "C19.loops-complete")
 
 
 def _registry_facts(fi):
@@ -369,6 +371,16 @@ def rule_validation_before_write(ctx):
               "extension shaped like the built-in ArchiveExt (contains_refs: list of ObjectReferenceProperty) is refused, one with "
               "identifier-typed references is registered", file=rx_.module.relpath, line=rx_.node.lineno, function=rx_.qualname,
               expected="_validate_props(<props>, version, is_observable20=(version == '2.0'))", found=[short(c, 80) for c in vcalls])
+    # the five extension types of STIX 2.1 section 7.3 are what a custom extension's `extension_type` may be fixed to
+    cb = prog.func("stix2.custom::_custom_extension_builder")
+    lists = [l_ for c in body_walk(cb.node) if isinstance(c, ast.Call) and call_simple_name(c) == "EnumProperty" and c.args
+             for l_ in [c.args[0]] if isinstance(l_, (ast.List, ast.Tuple))]
+    got_v = sorted(e.value for l_ in lists for e in l_.elts if isinstance(e, ast.Constant)) if lists else None
+    want_v = sorted(["new-sdo", "new-sco", "new-sro", "property-extension", "toplevel-property-extension"])
+    run.check(got_v == want_v, R, key(cb.module.relpath, cb.qualname, "extension-type-vocabulary"),
+              "the extension types a custom extension may declare differ from the five of STIX 2.1 section 7.3: a class declaring a "
+              "missing one cannot be instantiated (its fixed value is refused), an added one is emitted", file=cb.module.relpath,
+              line=lists[0].lineno if lists else cb.node.lineno, function=cb.qualname, expected=want_v, found=got_v)
     # extension naming rule for 2.1
     re_ = prog.func(REG + "::_register_extension")
     tests = [n for n in body_walk(re_.node) if isinstance(n, ast.If) and "endswith('-ext')" in norm(n.test)
